@@ -10,7 +10,7 @@ PROP = {'streams': [('c05', 4000, 250000)],
          't (accept and reject), Print_model e ~ lex(print_impl e), parse_impl(render(Print_model e)) = e via the driver sub-process, unescape_model '
          '= to_unescaped_string / like-pattern; non-trivial = accepted expression with >= 3 sub-expressions or an accepted policy (distinct by '
          'canonical AST) or a distinct raw literal',
- 'theorems': ['unescape_escape', 'unescape_escape_pattern', 'parse_print_full', 'parse_image', 'parse_print_parse', 'parse_print_partial3',
+ 'theorems': ['unescape_escape', 'unescape_escape_pattern', 'parse_print_full', 'parse_image', 'parse_print_parse', 'round_trip_meaning', 'round_trip_meaning_text', 'parse_print_partial3',
               'parse_print_partial', 'inFrag3_parserImage', 'parserImage_inFrag3', 'inFrag2_inFrag3'],
  'assumptions': ['the harness tokenizer (token classes of grammar.lalrpop) is trusted',
                  "escape_debug's Unicode tables are not modelled: the theorems quantify over an arbitrary mustEscape predicate",
